@@ -219,8 +219,9 @@ def decide(prop, tier, seed=0, use_cache=True, out=sys.stdout):
         if v["engine"] == "kani":
             pb = replays.get(v["harness"])
             if pb is None:
-                # native replay costs a build + a verification run each: at most two per check in the quick tier
-                if tier == "quick" and (len(replays) >= 2 or (len(replays) >= 1 and time.time() - t0 > 330) or time.time() - t0 > 480):
+                # native replay costs a build + a verification run + a native test build (about 4-5 minutes): one per check in the quick tier,
+                # and none when the verification itself already took 7 minutes
+                if tier == "quick" and (len([x for x in replays.values() if not x.get("skipped")]) >= 1 or time.time() - t0 > 420):
                     pb = {"skipped": "replay budget of the quick tier used up; run the thorough tier or ./check replay"}
                 else:
                     pb = kani_playback(v["harness"], cfg)
